@@ -1,7 +1,8 @@
 #!/bin/bash
-# dev loop: persistent scratch at /var/tmp/verif-dev with ALL harness modules mounted; usage: dev_kani.sh <harness-substr> [extra cargo-kani args]
+# dev loop: persistent scratch ($DEV_DIR, default /var/tmp/verif-dev) with harness modules mounted (DEV_MODS=substr,substr limits which);
+# DEV_PATCH=<unified diff against /repo> is applied to the scratch copy (for mutation tests); usage: dev_kani.sh <harness-substr> [extra cargo-kani args]
 set -e
-D=/var/tmp/verif-dev
+D=${DEV_DIR:-/var/tmp/verif-dev}
 python3 - "$D" <<'PY'
 import sys, os, shutil, subprocess
 sys.path.insert(0, '/verif/lib')
@@ -14,6 +15,8 @@ os.makedirs(os.path.join(repo,'.cargo'), exist_ok=True)
 open(os.path.join(repo,'.cargo','config.toml'),'w').write('[net]\noffline = true\n')
 if not os.path.isdir(os.path.join(repo,'target')):
     subprocess.call(['cp','-a',os.path.join(common.CACHE_ROOT,'kani-target'), os.path.join(repo,'target')])
+if os.environ.get('DEV_PATCH'):
+    subprocess.check_call(['patch','-p1','-s','-i',os.environ['DEV_PATCH']], cwd=repo)
 kd = os.path.join(repo,'verif_kani')
 shutil.rmtree(kd, ignore_errors=True)
 shutil.copytree(kani_run.KANI_DIR, kd)
